@@ -343,6 +343,8 @@ func runC10(c *eng.Ctx) {
 			"group-by resolution asks every grouping scanner (mutable, immutable, each forward-index file) of every tag key; a scanner without the container is skipped, not the end of the scan")
 	})
 
+	c.Rule("GOC", "index.indexKVStore.createValue", func() { gocCreateValue(c) })
+
 	c.Rule("ORDER", "index{memory read < snapshot}", func() {
 		memoryBeforeSnapshot(c, []orderedReader{
 			{"index.invertedIndex.getSeriesIDs", "index.invertedIndex", invokeOn(".family", "GetSnapshot"), true},
